@@ -59,7 +59,7 @@ def run(ctx):
                 ctx.check("C20-R1", "V4 address: no IPV6_V6ONLY call", not v6, "set_only_v6 is called for an IPv4 bind address", where(f), key="set_only_v6|V4")
             if leaf.startswith("return Result::Ok(<impl From<Socket> for UdpSocket>::from("):
                 b = [e for e in ev if e.startswith("Socket::bind(")]
-                ctx.check("C20-R1", "bound to the requested address", len(b) == 1 and re.search(r",&<SocketAddr as From<SocketAddrV[46]>>::from\(\(self as AddressV[46]\)\.0\)\)$", b[0].replace("<SockAddr as From<SocketAddr>>::from(", "").replace("))", ")") if False else b[0]) is not None or (len(b) == 1 and "(self as AddressV" in b[0]),
+                ctx.check("C20-R1", "bound to the requested address", len(b) == 1 and re.search(r",<SocketAddr as From<SocketAddrV[46]>>::from\(\(self as AddressV[46]\)\.0\)\)$", b[0].replace("<SockAddr as From<SocketAddr>>::from(", "").replace("))", ")") if False else b[0]) is not None or (len(b) == 1 and "(self as AddressV" in b[0]),
                           "bind_socket does not bind to the configured address: %s" % b, where(f), key="bound to the requested address")
         ctx.floor("C20-R1", "bind_socket socket-creating paths", n, 4)
     for side, args in (("ServerConfigBuilder", "self,IpBindConfig::InAddrAnyDual,listening_port"), ("ClientConfigBuilder", "self,IpBindConfig::InAddrAnyDual")):
@@ -90,8 +90,8 @@ def run(ctx):
         f = A.fn(C + side + "::max_idle_timeout")
         T = r"Option::transpose\(Option::map\(idle_timeout,fn:TryFrom::try_from\)\)"
         rows = [
-            {"name": "representable->applied", "atoms": [r"^%s ok$" % T], "events": [r"^TransportConfig::max_idle_timeout\(&self\.0\.transport_config,ok\(%s\)\)$" % T], "leaf": r"^return Result::Ok\(self\)$"},
-            {"name": "not representable->refused, config untouched", "atoms": [r"^%s fails$" % T], "not_events": [r"TransportConfig::"], "leaf": r"^return Err\(from\(apply\(closure:"},
+            {"name": "representable->applied", "atoms": [r"^%s ok$" % T], "events": [r"^TransportConfig::max_idle_timeout\(self\.0\.transport_config,ok\(%s\)\)$" % T], "leaf": r"^return Result::Ok\(self\)$"},
+            {"name": "not representable->refused, config untouched", "atoms": [r"^%s fails$" % T], "not_events": [r"TransportConfig::"], "leaf": r"^return Result::Err\(InvalidIdleTimeout\)$"},
         ]
         ps = walk(f)
         match_table(ctx, "C20-R2", f, ps, rows, "%s::max_idle_timeout" % side)
@@ -102,18 +102,18 @@ def run(ctx):
         ctx.check("C20-R2", "%s invalid -> InvalidIdleTimeout" % side, ls == ["return InvalidIdleTimeout"], "conversion failure is not reported as InvalidIdleTimeout: %s" % ls, where(cl))
         f = A.fn(C + side + "::keep_alive_interval")
         ev = [e for p in nonpanic(walk(f)) for e in event_strs(p)]
-        ctx.check("C20-R2", "%s::keep_alive_interval" % side, ev == ["TransportConfig::keep_alive_interval(&self.0.transport_config,interval)"], "%s::keep_alive_interval does not reach TransportConfig::keep_alive_interval(interval): %s" % (side, ev), where(f))
+        ctx.check("C20-R2", "%s::keep_alive_interval" % side, ev == ["TransportConfig::keep_alive_interval(self.0.transport_config,interval)"], "%s::keep_alive_interval does not reach TransportConfig::keep_alive_interval(interval): %s" % (side, ev), where(f))
         f = A.fn(C + side + "::build")
         with depth_limit(10):
             ps = nonpanic(walk(f))
             ev = [e for p in ps for e in event_strs(p)]
             lf = [path_sig(p)[1] for p in ps]
         qc = "ServerConfig" if side == "ServerConfigBuilder" else "ClientConfig"
-        ctx.check("C20-R2", "%s::build installs the transport config" % side, any(re.match(r"^%s::transport_config\(&.*,Arc::new\(self\.0\.transport_config\)\)$" % qc, e) for e in ev), "%s::build does not install self.0.transport_config" % side, where(f))
+        ctx.check("C20-R2", "%s::build installs the transport config" % side, any(re.match(r"^%s::transport_config\(.*,Arc::new\(self\.0\.transport_config\)\)$" % qc, e) for e in ev), "%s::build does not install self.0.transport_config" % side, where(f))
         ctx.check("C20-R2", "%s::build uses the given TLS config" % side, any(re.search(r"as TryFrom<%s>>::try_from\(self\.0\.tls_config\)" % qc, e) for e in ev), "%s::build does not build the QUIC crypto from self.0.tls_config" % side, where(f))
         ctx.check("C20-R2", "%s::build keeps bind / endpoint config" % side, len(lf) == 1 and lf[0].startswith("return %s(self.0.bind_address_config,self.0.endpoint_config," % qc), "%s::build changed: %s" % (side, [l[:80] for l in lf]), where(f))
         if side == "ServerConfigBuilder":
-            ctx.check("C20-R2", "build applies migration", any(re.match(r"^ServerConfig::migration\(&.*,self\.0\.migration\)$", e) for e in ev), "ServerConfigBuilder::build does not apply self.0.migration", where(f))
+            ctx.check("C20-R2", "build applies migration", any(re.match(r"^ServerConfig::migration\(.*,self\.0\.migration\)$", e) for e in ev), "ServerConfigBuilder::build does not apply self.0.migration", where(f))
     f = A.fn(C + "ServerConfigBuilder::allow_migration")
     ev = [e for p in nonpanic(walk(f)) for e in event_strs(p)]
     ctx.check("C20-R2", "allow_migration stores the flag", ev == ["store self.0.migration := value"], "allow_migration does not store the value: %s" % ev, where(f))
@@ -125,7 +125,7 @@ def run(ctx):
             ps = nonpanic(walk(f))
             ev = [e for p in ps for e in event_strs(p)]
         pv = [e for e in ev if e.startswith("ConfigBuilder::with_protocol_versions(")]
-        ctx.check("C20-R3", "%s: protocol versions == [TLS13]" % side, bool(pv) and all(re.search(r",\(&\[&\*?TLS13\] as &\[&(rustls::)?SupportedProtocolVersion\]\)\)$", e) is not None for e in pv),
+        ctx.check("C20-R3", "%s: protocol versions == [TLS13]" % side, bool(pv) and all(re.search(r",\(\[TLS13\] as &\[&(rustls::)?SupportedProtocolVersion\]\)\)$", e) is not None for e in pv),
                   "%s build_default_tls_config does not restrict to exactly [TLS13]: %s" % (side, [e[-80:] for e in pv]), where(f))
         al = [e for e in ev if e.startswith("store ") and ".alpn_protocols :=" in e]
         ctx.check("C20-R3", "%s: ALPN == [WEBTRANSPORT_ALPN]" % side, bool(al) and all(re.search(r":= <impl \[T\]>::to_vec\(.*\[<impl \[T\]>::to_vec\(.*WEBTRANSPORT_ALPN.*\)\]", e) is not None for e in al),
@@ -133,12 +133,12 @@ def run(ctx):
 
     ctx.rule("C20-R4", "reload_config: rebind iff requested; always installs the new server config")
     f = A.fn("wtransport::endpoint::Endpoint::reload_config")
-    SET = r"^Endpoint::set_server_config\(&\*self\.endpoint,Option::Some\(server_config\.quic_config\)\)$"
+    SET = r"^Endpoint::set_server_config\(self\.endpoint,Option::Some\(server_config\.quic_config\)\)$"
     rows = [
         {"name": "no rebind->install config only", "atoms": [r"^!rebind$"], "events": [SET], "not_events": [r"Endpoint::rebind", r"bind_socket"], "leaf": r"^return Result::Ok\(\(\)\)$"},
-        {"name": "rebind ok->rebind then install", "atoms": [r"^rebind$", r"^Endpoint::rebind\(.*\) ok$"], "events": [r"^Endpoint::rebind\(&\*self\.endpoint,ok\(BindAddressConfig::bind_socket\(server_config\.bind_address_config\)\)\)$", SET], "leaf": r"^return Result::Ok\(\(\)\)$"},
-        {"name": "bind fails->error", "atoms": [r"^BindAddressConfig::bind_socket\(.*\) fails$"], "leaf": r"^return Err\(from\(err\(BindAddressConfig::bind_socket"},
-        {"name": "rebind fails->error", "atoms": [r"^Endpoint::rebind\(.*\) fails$"], "leaf": r"^return Err\(from\(err\(Endpoint::rebind"},
+        {"name": "rebind ok->rebind then install", "atoms": [r"^rebind$", r"^Endpoint::rebind\(.*\) ok$"], "events": [r"^Endpoint::rebind\(self\.endpoint,ok\(BindAddressConfig::bind_socket\(server_config\.bind_address_config\)\)\)$", SET], "leaf": r"^return Result::Ok\(\(\)\)$"},
+        {"name": "bind fails->error", "atoms": [r"^BindAddressConfig::bind_socket\(.*\) fails$"], "leaf": r"^return Result::Err\(err\(BindAddressConfig::bind_socket"},
+        {"name": "rebind fails->error", "atoms": [r"^Endpoint::rebind\(.*\) fails$"], "leaf": r"^return Result::Err\(err\(Endpoint::rebind"},
     ]
     match_table(ctx, "C20-R4", f, walk(f), rows, "Endpoint::reload_config")
     for nm, qcfg in (("server", "Option::Some(server_config.quic_config)"), ("client", "Option::None")):
@@ -151,7 +151,7 @@ def run(ctx):
     f = A.fn("wtransport::endpoint::Endpoint::client")
     with depth_limit(8):
         ev = [e for p in nonpanic(walk(f)) for e in event_strs(p)]
-    ctx.check("C20-R4", "client installs its quic config as default", any(re.match(r"^Endpoint::set_default_client_config\(&.*,client_config\.quic_config\)$", e) for e in ev), "Endpoint::client does not install client_config.quic_config", where(f))
+    ctx.check("C20-R4", "client installs its quic config as default", any(re.match(r"^Endpoint::set_default_client_config\(.*,client_config\.quic_config\)$", e) for e in ev), "Endpoint::client does not install client_config.quic_config", where(f))
 
     ctx.rule("C20-R5", "builder typestate: compile-fail witnesses (build() before identity / trust policy; binding twice)")
     witness.run(ctx, "C20-R5", {"C20"})
